@@ -11,6 +11,7 @@ CONSTANTS
   RetryFailed = TRUE
   ClosedRejects = FALSE
   AtomicWrite = TRUE
+  RegisterAtGet = TRUE
   AtomicEvict = TRUE
   UniqueStamp = TRUE
   EvictChecksRef = TRUE
